@@ -5,7 +5,8 @@
  *   wire = concatenation of everything the socket took (also for P/R/D: what had been flushed before the exit),
  *   buffered = smtptobuf[0..smtpto.p) at that moment, nwrites = number of write() calls on the socket.
  * <plan> (one token) = <rplan>[/<wplan>[/<ibuf>,<obuf>]]: how read() of the message file and write() to the socket behave. Each
- *   plan is a comma-separated list of caps used cyclically, one per call (0 = no cap, e = the call fails with EIO).
+ *   plan is a comma-separated list of caps used cyclically, one per call (0 = no cap, e = the call fails with EIO; in the
+ *   read plan also i = the call is interrupted, -1/EINTR, nothing transferred: the same bytes are there for the retry).
  *   <ibuf>,<obuf>: the two substdio are given only that many bytes of their buffers (ssin.n / smtpto.n lowered after the
  *   program's own initialisation: refills and flushes then happen every few bytes).  Without them NOTHING of the program's
  *   own `ssin` / `smtpto` is touched.  A plain integer is the old <chunk> (read cap, unlimited writes).
@@ -61,23 +62,25 @@ static hbuf outb, repb;
 static int rplan[MAXPLAN], rplan_n, wplan[MAXPLAN], wplan_n, ibuf_n, obuf_n; static long rplan_k, wplan_k, nwrites;
 static int in_case;
 
-static const char *parse_caps(const char *t, int *plan, int *n) {
+static const char *parse_caps(const char *t, int *plan, int *n, int allow_intr) {
+  int real = 0;                              /* entries other than 'i': a plan of interrupted calls only would never end */
   *n = 0;
   while (*t && *t != '/') {
     if (*n >= MAXPLAN) return 0;
-    if (*t == 'e') { plan[(*n)++] = -1; t++; }
-    else if (*t >= '0' && *t <= '9') { plan[(*n)++] = (int)strtol(t, (char **)&t, 10); }
+    if (*t == 'e') { plan[(*n)++] = -1; t++; real++; }
+    else if (*t == 'i' && allow_intr) { plan[(*n)++] = -2; t++; }
+    else if (*t >= '0' && *t <= '9') { plan[(*n)++] = (int)strtol(t, (char **)&t, 10); real++; }
     else return 0;
     if (*t == ',') t++;
   }
-  return *n > 0 ? t : 0;
+  return real > 0 ? t : 0;
 }
 static int parse_plan(const char *t) {
   ibuf_n = obuf_n = 0;                      /* 0 = as the program initialised it */
   wplan[0] = 0; wplan_n = 1;
-  t = parse_caps(t, rplan, &rplan_n);
+  t = parse_caps(t, rplan, &rplan_n, 1);
   if (!t) return 0;
-  if (*t == '/') { t = parse_caps(t + 1, wplan, &wplan_n); if (!t) return 0; }
+  if (*t == '/') { t = parse_caps(t + 1, wplan, &wplan_n, 0); if (!t) return 0; }
   if (*t == '/') {
     if (sscanf(t + 1, "%d,%d", &ibuf_n, &obuf_n) != 2) return 0;
     if (ibuf_n < 1 || ibuf_n > 1024 || obuf_n < 1 || obuf_n > 1024) return 0;
@@ -93,6 +96,7 @@ ssize_t __wrap_read(int fd, void *buf, size_t len) {
   if (!in_case) return __real_read(fd, buf, len);
   if (fd != 0) { errno = EBADF; return -1; }                 /* the message is descriptor 0 and nothing else */
   int c = rplan[rplan_k++ % rplan_n];
+  if (c == -2) { errno = EINTR; return -1; }                 /* interrupted before any byte was transferred: to be retried */
   if (c < 0) { errno = EIO; return -1; }
   size_t k = in_n - in_pos;
   if (k > len) k = len;
@@ -192,6 +196,8 @@ int main(int argc, char **argv) {
       if (len + 4 <= maxlen) {
         for (int j = 0; j <= len; j++) { char t[64]; int o = 0; for (int q = 0; q < j; q++) o += snprintf(t + o, sizeof t - o, "1,"); snprintf(t + o, sizeof t - o, "e"); onep(m, len, t); }
         onep(m, len, "0/e"); onep(m, len, "0/1,e");
+        /* interrupted reads (EINTR): before the first byte, between one-byte reads, before the read that sees the end */
+        onep(m, len, "i,0"); onep(m, len, "i,1"); onep(m, len, "1,i,i,2/1");
       }
     }
   }
@@ -231,7 +237,7 @@ int main(int argc, char **argv) {
     }
     if (r % 9 != 8) b[n - 1] = '\n';
     static const char *fixed[] = { "0", "1", "2", "1023", "1024", "1025", "700,1023,5,1024,1",
-                                   "0/1", "0/2", "0/1023", "0/1024", "0/1025", "1023/1023", "1/1", "1024/3,1,1020,7", "1023,1/1,1022" };
+                                   "0/1", "0/2", "0/1023", "0/1024", "0/1025", "1023/1023", "1/1", "1024/3,1,1020,7", "1023,1/1,1022", "i,0", "1024,i", "i,1023,i,i,1/1023" };
     for (unsigned k = 0; k < sizeof fixed / sizeof fixed[0]; k++) onep(b, n, fixed[k]);
     for (int k = 0; k < 3; k++) {
       char tok[800]; int o = 0;
@@ -241,6 +247,7 @@ int main(int argc, char **argv) {
         for (int j = 0; j < np; j++) {
           uint32_t c = h_below(4) == 0 ? 1020 + h_below(8) : h_below(3) == 0 ? 1 + h_below(4) : 1 + h_below(1100);
           o += snprintf(tok + o, sizeof tok - o, "%s%u", j ? "," : "", c);
+          if (!side && k == 2 && h_below(3) == 0) o += snprintf(tok + o, sizeof tok - o, ",i");
         }
       }
       onep(b, n, tok);
